@@ -47,6 +47,48 @@ def Cont.card : Cont → Nat
   | .bmp _ words => (words.map popcount).sum
   | .run runs => (runs.map fun (_, l) => l + 1).sum
 
+/-! #### fast abstraction used by the compiled checker (same function, computed word-wise / run-wise) -/
+
+/-- boundaries contributed by one word, given the membership state just below it -/
+def wordBoundsFast (pos : Nat) (prev : Bool) (w : BitVec 64) : List Nat × Bool :=
+  if w == 0#64 then ((if prev then [pos] else []), false)
+  else if w == BitVec.allOnes 64 then ((if prev then [] else [pos]), true)
+  else
+    let rec go (i : Nat) (fuel : Nat) (prev : Bool) (acc : List Nat) : List Nat × Bool :=
+      match fuel with
+      | 0 => (acc.reverse, prev)
+      | fuel + 1 =>
+        let b := w.getLsbD i
+        go (i + 1) fuel b (if b != prev then (pos + i) :: acc else acc)
+    go 0 64 prev []
+
+def wordsBoundsFast : (pos : Nat) → (prev : Bool) → List (BitVec 64) → List (List Nat) → List (List Nat)
+  | pos, prev, [], acc => ((if prev then [pos] else []) :: acc).reverse
+  | pos, prev, w :: t, acc =>
+    let (bs, p) := wordBoundsFast pos prev w
+    wordsBoundsFast (pos + 64) p t (if bs.isEmpty then acc else bs :: acc)
+
+/-- strictly increasing values → boundary list in one pass -/
+def sortedValsBounds : (base : Nat) → List Nat → (cur : Option (Nat × Nat)) → List Nat → List Nat
+  | _, [], none, acc => acc.reverse
+  | _, [], some (lo, hi), acc => (hi :: lo :: acc).reverse
+  | base, v :: t, none, acc => sortedValsBounds base t (some (base + v, base + v + 1)) acc
+  | base, v :: t, some (lo, hi), acc =>
+    if base + v == hi then sortedValsBounds base t (some (lo, hi + 1)) acc
+    else sortedValsBounds base t (some (base + v, base + v + 1)) (hi :: lo :: acc)
+
+def Cont.toBSetFast (base : Nat) : Cont → BSet
+  | .arr vals => if strictIncFast vals then sortedValsBounds base vals none [] else (Cont.arr vals).toBSet base
+  | .bmp _ words => (wordsBoundsFast base false words []).flatten
+  | .run runs => Driver.unionAll (runs.map fun (s, l) => [base + s, base + s + l + 1])
+where
+  strictIncFast : List Nat → Bool
+    | a :: b :: t => a < b && strictIncFast (b :: t)
+    | _ => true
+
+def Rep.toBSetFast (r : Rep) : BSet :=
+  Driver.unionAll (r.slots.map fun s => s.c.toBSetFast (s.key * 65536))
+
 def Rep.toBSet (r : Rep) : BSet :=
   Driver.unionAll (r.slots.map fun s => s.c.toBSet (s.key * 65536))
 
